@@ -99,6 +99,8 @@ def spellings(ctx, host, rng, full):
         out.append(("%s:80/a.b/c" % (host.capitalize() if host.capitalize().lower() == host else host), "url"))
         out.append(("%s?x=1&next=www.other.co.uk" % host, "url"))  # scheme-less and slash-less, with a query / a fragment
         out.append(("%s#www.other.com" % host, "url"))
+        if "." in host:
+            out.append(("%s//a/b.co.uk" % host, "url"))  # a leading empty path segment: 'host.tld//x' is not 'scheme://x'
         ctx.count("form-url", 5)
     return out
 
